@@ -43,6 +43,9 @@ fn inputs() -> Vec<V> {
         list(vec![kv("x", V::Int(1)), kv("y", V::Int(2)), kv("zed", V::Int(3)), kv("w", V::Int(4)), kv("f", V::External(5)), kv("g", V::External(6))]),
         V::pair(V::sym("y"), V::External(9)),
         V::External(4),
+        // a concatenation answers identifiers from both of its sides
+        crate::pool::concat(list(vec![kv("x", V::Int(7))]), list(vec![kv("zed", V::Int(8)), kv("f", V::External(2)), V::Int(9)])),
+        crate::pool::concat(V::pair(V::sym("y"), V::Int(1)), V::pair(V::sym("w"), V::Unit)),
     ]
 }
 
@@ -187,7 +190,7 @@ pub fn run(ctx: &Ctx) -> (Acc, String, bool) {
         })
         .collect();
     let cfgs = (ins.len() * hs.len() * 2) as u64;
-    let small_cfgs: Vec<(usize, usize)> = if ctx.quick() { vec![(0, 0), (0, 3), (3, 1), (5, 4)] } else { vec![(0, 0), (0, 3), (0, 4), (2, 1), (3, 1), (3, 3), (4, 2), (5, 4), (6, 2)] };
+    let small_cfgs: Vec<(usize, usize)> = if ctx.quick() { vec![(0, 0), (0, 3), (3, 1), (5, 4), (8, 3)] } else { vec![(0, 0), (0, 3), (0, 4), (2, 1), (3, 1), (3, 3), (4, 2), (5, 4), (6, 2), (8, 3), (9, 1)] };
     let small_total = small.len() as u64 * small_cfgs.len() as u64;
     let tmpl_total = tmpl.len() as u64 * cfgs;
     let random_total: u64 = ctx.pick(25_000, 1_500_000);
